@@ -45,7 +45,7 @@ ASCII_ID = ["a", "b", "foo", "bar-baz", "x1", "_u", "-m"]
 def ident(rng):
     s = rng.choice(ASCII_ID)
     if rng.random() < 0.35:
-        s += rng.choice(["é", "ü", "日本", "ß", "Ω", "ａ", "ñ9", "Ж"])
+        s += rng.choice(["é", "ü", "日本", "ß", "Ω", "ａ", "ñ9", "Ж", "🎉", "€"])   # symbols too since bcc4ec1
     return s
 
 
@@ -157,7 +157,7 @@ def gen(tier, rng, boost=1):
         yield Case("\t".join(["c09rt", "scss", hx(src)]), "fixed")
     for _ in range(n):
         yield Case("\t".join(["c09rt", "scss", hx(sheet(rng))]), "sheet")
-    # identifiers with non-alphanumeric non-ASCII characters (symbols, emoji): known finding C09-reader-symbol-ident
+    # identifiers with non-alphanumeric non-ASCII characters (symbols, emoji): finding C09-reader-symbol-ident (fixed by bcc4ec1)
     for sym in ["🎉", "→", "€", "\u2028", "♥"]:
         for src in ("a{b:x" + sym + "}", "a{x" + sym + ":c}", ".c" + sym + "{b:c}"):
             yield Case("\t".join(["c09rt", "scss", hx(src)]), "ident-symbol")
